@@ -25,8 +25,8 @@ ASSUMPTIONS = [
 ACC_TRIGGERS = {2: "C10.no_eligible_candidate"}   # 1 (duplicate key) fixed by /repo 9246c8d: a violation now
 RULE_TRIGGERS = {}   # frozen-in-window fixed by /repo 304e1e1
 CONV_TRIGGERS = {1: "C10.member_without_record"}
-CRASH_TRIGGERS = {1: "C10.negative_power_record", 3: "C10.zero_total_power"}
-NCODES = 6
+CRASH_TRIGGERS = {}   # both crash classes fixed by /repo e681066: every node exit in EndBlock is a violation
+NCODES = 7
 
 
 def run_harness(ctx, vh, shards, n, ntm, extra=None):
@@ -79,7 +79,7 @@ def evaluate(out_dir, cases, files, tfiles, cfiles=()):
 
 def payload(c, codes, what):
     return {"kind": what, "history_kind": c["kind"], "hseed": c["hseed"], "height": c["height"], "case": c,
-            "codes[mm,tm,acc,rule,conv,keyed]": codes, "how": "./check replay <this file>"}
+            "codes[mm,tm,acc,rule,conv,keyed,negp]": codes, "how": "./check replay <this file>"}
 
 
 def judge(ctx, cases, codes, tcases, tres, crashed=(), cres=()):
@@ -92,11 +92,12 @@ def judge(ctx, cases, codes, tcases, tres, crashed=(), cres=()):
             found = True
             ctx.violation("crash_%d_h%d" % (c["hseed"], c["height"]), payload(c, [k], "node-exits-in-endblock-no-updates-returned"))
     for c, k in zip(cases, codes):
-        mm, tm, acc, rule, conv, keyed = k
+        mm, tm, acc, rule, conv, keyed, negp = k
         for (code, table, what) in ((acc, ACC_TRIGGERS, "tendermint-rejects-validator-updates"),
                                     (rule, RULE_TRIGGERS, "update-violates-staking-rule"),
                                     (conv, CONV_TRIGGERS, "active-set-does-not-converge-to-election"),
-                                    (keyed, {}, "record-address-is-not-the-address-of-its-key")):
+                                    (keyed, {}, "record-address-is-not-the-address-of-its-key"),
+                                    (negp, {}, "validator-record-with-negative-power")):
             if code == 0:
                 continue
             if code in table and ctx.known_finding(table[code], what):
@@ -169,6 +170,8 @@ def run(ctx):
         "rogue_stake_attempts_refused": sum(1 for c in cases for t in (c.get("txs") or []) if t.startswith("stake rogue") and " -> 0" not in t),
         "rogue_stake_attempts_executed": sum(1 for c in cases for t in (c.get("txs") or []) if t.startswith("stake rogue") and " -> 0" in t),
         "blocks_with_frozen_validator_in_votes_window": sum(1 for c in cases if c["frozen"] and c["height"] <= c["bvd"]),
+        "negative_power_monitor[0 ok,1 negative]": hist(k[6] for k in codes),
+        "unstake_more_than_record_refused": sum(1 for c in cases for t in (c.get("txs") or []) if "exceeds the stake" in t),
         "convergence_checked_blocks": sum(1 for c in cases if c["quiet"] >= 5 and c["tm_ok"]),
         "record_stake_differs_from_delegation_store": len(own_diff),
         "blocks_where_node_exited[1 negative power record,3 zero total power,2 other]": hist(cres),
@@ -192,6 +195,6 @@ def replay(ctx, rp):
     for c, k in zip(crashed, cres):
         print("height", c["height"], "NODE EXITED in EndBlock; crash code", k, c.get("txs") or "")
     for c, k in zip(cases, codes):
-        print("height", c["height"], "codes[mm,tm,acc,rule,conv,keyed]", k, "updates", [(u["k"], u["v"]) for u in c["ups"]],
+        print("height", c["height"], "codes[mm,tm,acc,rule,conv,keyed,negp]", k, "updates", [(u["k"], u["v"]) for u in c["ups"]],
               "tm_err", c.get("tm_err", ""), c.get("txs") or "")
     judge(ctx, cases, codes, tcases, tres, crashed, cres)
